@@ -21,20 +21,22 @@ def build(rng, tier):
             r2 = rng.fork(f"{pid}h{j}")
             inp = gen.gen_input(r2, p, max_rows=6)
             inst = f"{pid}_{j}"
-            ops = [f"eng new {inst} {pid}"] + engcheck.load_ops(inst, inp) + [f"eng run {inst}", f"eng dump {inst}"]
+            # odd histories: the Lean side is the physical-index engine model (`eng runp`, Model/EnginePhys.lean); the real code is the same
+            rn = "runp" if j % 2 == 1 else "run"
+            ops = [f"eng new {inst} {pid}"] + engcheck.load_ops(inst, inp) + [f"eng {rn} {inst}", f"eng dump {inst}"]
             union = {r: list(v) for r, v in inp.items()}
             marks = []          # (index of dump line, expected-input snapshot or "same")
             nsteps = r2.range(1, 2) if tier == 'quick' else r2.range(1, 3)
             for _ in range(nsteps):
                 if r2.chance(1, 2):
-                    ops += [f"eng run {inst}", f"eng dump {inst}"]; marks.append("same")
+                    ops += [f"eng {rn} {inst}", f"eng dump {inst}"]; marks.append("same")
                 else:
                     extra = gen.gen_input(r2, p, max_rows=3)
                     for r, rows in extra.items():
                         if rows:
                             ops.append(f"eng push {inst} r{r}" + "".join(" " + eng.sx_tuple(t) for t in rows))
                             union[r] = union.get(r, []) + list(rows)
-                    ops += [f"eng run {inst}", f"eng dump {inst}"]; marks.append({r: list(v) for r, v in union.items()})
+                    ops += [f"eng {rn} {inst}", f"eng dump {inst}"]; marks.append({r: list(v) for r, v in union.items()})
             cases.append(engcheck.Case(pid, inst, ops, {"inp": inp, "marks": marks, "kind": "history"}))
     # parallel twins (re-runs of ascent_par! programs panicked before the fix of F4)
     for i, p in enumerate(plist[: 4 if tier == "quick" else 20]):
